@@ -33,24 +33,24 @@ type Violation struct {
 }
 
 type Result struct {
-	Seed      uint64         `json:"seed"`
-	Scenario  string         `json:"scenario"`
-	Prop      string         `json:"prop"`
-	Violation *Violation     `json:"violation,omitempty"`
-	Infra     string         `json:"infra,omitempty"`
-	Journal   string         `json:"journal"`
-	Shape     string         `json:"shape"`
-	Steps     int            `json:"steps"`
-	SimMS     int64          `json:"sim_ms"`
-	Stats     map[string]int `json:"stats,omitempty"`
-	Reach     bool           `json:"reach"`
-	Sample    string         `json:"sample,omitempty"`
-	TapeLen   int            `json:"tape_len"`
-	Tape      []uint32       `json:"tape,omitempty"`
-	Tail      []string       `json:"tail,omitempty"`
-	Inconcl   string         `json:"inconclusive,omitempty"`
-	CaseKey   string         `json:"case_key,omitempty"`
-	Crash     string         `json:"crash,omitempty"` // worker died during this run: stderr signature
+	Seed      uint64            `json:"seed"`
+	Scenario  string            `json:"scenario"`
+	Prop      string            `json:"prop"`
+	Violation *Violation        `json:"violation,omitempty"`
+	Infra     string            `json:"infra,omitempty"`
+	Journal   string            `json:"journal"`
+	Shape     string            `json:"shape"`
+	Steps     int               `json:"steps"`
+	SimMS     int64             `json:"sim_ms"`
+	Stats     map[string]int    `json:"stats,omitempty"`
+	Reach     bool              `json:"reach"`
+	Sample    string            `json:"sample,omitempty"`
+	TapeLen   int               `json:"tape_len"`
+	Tape      []uint32          `json:"tape,omitempty"`
+	Tail      []string          `json:"tail,omitempty"`
+	Inconcl   string            `json:"inconclusive,omitempty"`
+	CaseKey   string            `json:"case_key,omitempty"`
+	Crash     string            `json:"crash,omitempty"` // worker died during this run: stderr signature
 	Args      map[string]string `json:"-"`
 }
 
